@@ -40,7 +40,7 @@ func VrfSortition(sk vrf.PrivateKey, seed common.Hash, index uint32, role uint32
 	//logging.Debug("VrfSortition Start.", "index", index, "step", role, "threshold", threshold, "stake", stake, "totalStake", totalStake)
 	var m = MakeM(seed, role, index)
 
-	pFloat, _ := new(big.Float).Quo(new(big.Float).SetUint64(threshold), new(big.Float).SetInt(totalStake)).Float64()
+	pFloat := seatProbability(threshold, totalStake)
 
 	value, proof, j := sortition(sk, m, stake, pFloat)
 
@@ -59,7 +59,7 @@ func VrfVerifySortition(pk vrf.PublicKey, seed common.Hash, index uint32, role u
 		return false, fmt.Errorf("verify seed failed.")
 	}
 
-	pFloat, _ := new(big.Float).Quo(new(big.Float).SetUint64(threshold), new(big.Float).SetInt(totalStake)).Float64()
+	pFloat := seatProbability(threshold, totalStake)
 	j := choose(hash, stake, pFloat)
 	if j <= 0 {
 		return false, fmt.Errorf("not a validator.")
@@ -69,6 +69,18 @@ func VrfVerifySortition(pk vrf.PublicKey, seed common.Hash, index uint32, role u
 	}
 
 	return true, nil
+}
+
+// seatProbability is the per-unit-of-stake probability committee/totalStake of the binomial
+// sortition. A committee larger than the total stake cannot be told apart from one that takes
+// every unit of stake, so the probability is capped at 1 (anything above is not a probability
+// and makes the binomial CDF panic).
+func seatProbability(threshold uint64, totalStake *big.Int) float64 {
+	p, _ := new(big.Float).Quo(new(big.Float).SetUint64(threshold), new(big.Float).SetInt(totalStake)).Float64()
+	if p > 1 {
+		p = 1
+	}
+	return p
 }
 
 func VrfComputePriority(hash common.Hash, j uint32) common.Hash {
@@ -87,7 +99,7 @@ func VrfVerifyPriority(pk vrf.PublicKey, seed common.Hash, index uint32, role ui
 		return false, fmt.Errorf("verify seed failed")
 	}
 
-	pFloat, _ := new(big.Float).Quo(new(big.Float).SetUint64(threshold), new(big.Float).SetInt(totalStake)).Float64()
+	pFloat := seatProbability(threshold, totalStake)
 	j := choose(hash, stake, pFloat)
 	if uint32(j) != subUsers {
 		return false, fmt.Errorf("sub-users' number is not correct:%x,%x", j, subUsers)
